@@ -8,10 +8,17 @@ NOTE = ("Trusted: Lean 4.33 kernel (axioms propext/Classical.choice/Quot.sound o
 CHECKS = {
  "C01": ("Theorems over the Lean model: every constructor and operation yields an envelope whose cached digests equal the digests recomputed from its children, and those equal the specification's digest function; structural induction, any depth/width/history. Tied to /repo by scenario correspondence (bit-identical digests, Lean SHA-256 vs library) and an independent spec-digest oracle on the implementation.", "5/C01"),
  "C02": ("Theorem: elide_set_with_action (any target set, mode, action) and the whole-envelope obscuring operations preserve the root digest and the digest at every remaining position; correspondence on shapes; position-by-position oracle on the implementation.", "5/C02"),
+ "C03": ("Theorems: after elide_set_with_action a position is present and shallowly equal iff no digest on its ancestor-or-self chain is hit (dually for revealing); the topmost hit is the action's placeholder with nothing below; an elided element encodes as the 32-byte digest only; non-interference (the result depends only on the visible part and the hidden digests); unelide accepts exactly equal digests. Correspondence on shapes; marker-residue, position-wise and unelide oracles on the implementation.", "5/C03"),
  "C04": ("Theorem: the invariant (WF + canonical shape) is preserved by every modelled operation and implies the CBOR grammar; correspondence on shapes and bytes after every step of random histories; independent grammar recogniser on the implementation's bytes.", "5/C04"),
  "C05": ("Theorem: decoding the CBOR tree of an invariant-satisfying envelope returns that envelope (hence identical bytes); correspondence on bytes/shapes of recode; byte-identity, is_identical_to and UR oracles on the implementation.", "5/C05"),
  "C06": ("Theorem: whatever the model decoder accepts re-encodes to the input CBOR tree (up to the leaf-tag alias 24->201); rejection lemmas per malformed class; the model decoder is total and has no panic outcome. Correspondence of verdict and result on valid encodings, single/double structural mutations, byte mutations, hand-made non-canonical forms and random bytes; re-encode, independent-grammar and catch_unwind oracles on the implementation.", "5/C06"),
  "C07": ("Theorem: adding the same set of assertions in any order with any repetition gives equal envelopes; add idempotent; remove-after-add restores; unwrap(wrap)=id. Correspondence over permutations; receiver-unchanged and unordered-collection oracles on the implementation.", "5/C07"),
+ "C08": ("Theorems relative to AEAD and codec laws: decrypt(encrypt) returns the original for every subject case; digest preserved; wrong key, any tampering and a mis-declared digest give an error; double encryption refused. Correspondence on outcomes/shapes (toy AEAD in the model); real ChaCha20-Poly1305 single-bit tampering, wrong-key and mis-declaration oracles on the implementation.", "5/C08"),
+ "C12": ("Theorems: a proof exists iff every target occurs; it has the root digest; it is accepted by a holder of the root digest; confirm is exactly root-digest equality plus occurrence of every target in the proof. Correspondence on proof shapes and confirm verdicts; completeness/soundness/minimal-disclosure oracles on the implementation.", "5/C12"),
+ "C13": ("Theorems relative to DEFLATE and codec laws: uncompress(compress e) = e, digests preserved, compress idempotent, subject forms, mis-declared digest and corrupt data rejected. Correspondence on shapes/digests; real-DEFLATE round-trip, mis-declaration and corruption oracles on the implementation.", "5/C13"),
+ "C14": ("Theorems: equivalent iff digests equal; identical iff equivalent and equal structural images; reflexive/symmetric/transitive; unique decodability of the structural image; obscuring changes identity but not equivalence. Correspondence on eq and structural digests; independent pattern oracle on the implementation.", "5/C14"),
+ "C15": ("Theorems: the structure walk lists every element once, parents first, with level and edge as specified; count, digest sets per level, predicate lookups by digest (also through elided predicates), single-result errors. Correspondence on walks (both modes), counts, digest sets, lookups and typed extraction; independent traversal and by-hand leaf decoding oracles.", "5/C15"),
+ "C16": ("Theorems: every modelled operation has no panic outcome on invariant-satisfying inputs (every unwrap/expect/assert/index of the modelled Rust functions is an explicit panic branch in the model). Correspondence of panic outcomes on random histories; catch_unwind battery of ~150 public API calls on generated, decorated, obscured and adversarially decoded envelopes.", "5/C16"),
 }
 def main():
     checks = []
